@@ -204,6 +204,7 @@ def run_history(roots: list, ops: list, numeric: bool = False) -> dict:  # noqa:
               "set_by_symbol": 0, "set_by_name": 0, "set_by_index": 0, "rename_of_renamed": 0,
               "param_not_in_expression_renamed": 0}
     fresh_counter = [0]
+    shared_table: dict[str, str] = {}
 
     def flag(kind, detail, oi):
         mismatches.append({"kind": kind, "detail": f"op {oi}: {detail}"})
@@ -409,12 +410,51 @@ def run_history(roots: list, ops: list, numeric: bool = False) -> dict:  # noqa:
             for name in renames:
                 if name in slot["sources"] and name not in expression_names:
                     probes["param_not_in_expression_renamed"] += 1
+            form = op.get("form", "dict")
+            table = dict(renames)
+            if form == "dict":
+                argument = table
+            elif form == "shared":
+                # one rename table of the caller's, re-used for several models (names unknown to one
+                # model may be known to the next)
+                shared_table.update(renames)
+                table = shared_table
+                argument = shared_table
+                renames = dict(shared_table)
+                ev["renames"] = renames
+            elif form == "list":
+                argument = list(table.items())
+            elif form == "zip":
+                argument = zip(list(table), list(table.values()))
+            elif form == "generator":
+                argument = ((k, v) for k, v in table.items())
+            else:
+                argument = table.items()
+            snapshot_of_argument = dict(table)
             try:
-                new_model = model.rename_symbols(renames)
+                new_model = model.rename_symbols(argument)
             except Exception as exc:  # noqa: BLE001
                 flag(f"rename-raised:{type(exc).__name__}", f"slot {si}: rename_symbols({renames}) raised {exc}", oi)
                 events.append(ev)
                 continue
+            images = {}
+            for sym in all_symbols(model):
+                image = (renames.get(sym.name, sym.name), tuple(sorted(sym.assumptions0.items())))
+                images[image] = images.get(image, 0) + 1
+            if any(n > 1 for n in images.values()):
+                merged_now = True
+            if form == "shared":
+                names_now = {s_.name: s_ for s_ in all_symbols(model)}
+                for a_, b_ in renames.items():
+                    if a_ in names_now and b_ in names_now and a_ != b_ and \
+                            names_now[a_].assumptions0 != names_now[b_].assumptions0:
+                        collided_now = True
+            if table != snapshot_of_argument:
+                flag("argument-mutated", f"slot {si}: rename_symbols changed the caller's rename table from {snapshot_of_argument} to {table}", oi)
+                if form == "shared":
+                    shared_table.clear()
+                    shared_table.update(snapshot_of_argument)
+            probes[f"form_{form}"] = probes.get(f"form_{form}", 0) + 1
             if new_model is model:
                 probes["alias"] += 1
                 ev["alias"] = True
@@ -440,6 +480,25 @@ def run_history(roots: list, ops: list, numeric: bool = False) -> dict:  # noqa:
                             "depth": slot["depth"] + 1, "rx": slot["rx"], "fallback": None}
                 slots.append(new_slot)
                 check_slot(len(slots) - 1, oi, with_numeric=False)
+        elif kind == "transient":
+            # a renamed model that is thrown away at once (its address may be reused by later models)
+            import gc  # noqa: PLC0415
+
+            names = sorted(s_.name for s_ in model.parameter_defaults if isinstance(s_, sp.Symbol))
+            if names:
+                tmp = model.rename_symbols({names[op["pick"] % len(names)]: "zz_{transient}"})
+                del tmp
+                gc.collect()
+        elif kind == "clone":
+            # the same model through pickle or deepcopy: a new object with the same reference
+            import copy  # noqa: PLC0415
+            import pickle  # noqa: PLC0415
+
+            clone = pickle.loads(pickle.dumps(model)) if op.get("how") == "pickle" else copy.deepcopy(model)  # noqa: S301
+            slots.append(dict(slot, model=clone, sources={k: list(v) for k, v in slot["sources"].items()},
+                              depth=slot["depth"]))
+            probes["clone"] = probes.get("clone", 0) + 1
+            check_slot(len(slots) - 1, oi, with_numeric=False)
         elif kind == "set":
             keys = list(model.parameter_defaults)
             if keys and not slot.get("collided"):
